@@ -220,7 +220,13 @@ class _PartialEvalInstance(DefaultVisitor):
 
     def _try_eval(self, e_eval: Expr, ctx: Context):
         """Evaluate via the interpreter; return ``None`` on any
-        exception (PE is best-effort)."""
+        exception (PE is best-effort).
+
+        Nothing is folded under a stochastic context: the interpreter
+        would return *one draw* of a rounding that the program repeats
+        at run time, so the value is not a constant."""
+        if ctx.is_stochastic():
+            return None
         try:
             return to_value(self.rt.eval_expr(e_eval, self._base_env(), ctx))
         except Exception:  # noqa: BLE001 -- partial eval is best-effort
